@@ -128,7 +128,7 @@ def mkSegmentsStr (L : Layout) : Option (List (List PyStr × List PyStr)) :=
   | some st => some (buildStr 0 times st.info)
 
 /-- ids counted like spreadsheet columns: A … Z, AA, AB, … (NOT what the code does; see
-`alphaId_not_monotone`) -/
+`C09.spreadsheet_ids_break_order`) -/
 def alphaId : Nat → Nat → PyStr
   | 0, _ => []
   | fuel + 1, i => if i < 26 then [65 + i] else alphaId fuel (i / 26 - 1) ++ [65 + i % 26]
